@@ -27,6 +27,10 @@ func init() {
 		Run:         runC03,
 		Configs:     []string{"linux/amd64", "windows/amd64"},
 		Mutants: []Mutant{
+			{Name: "coretype-result-asserted-unchecked", File: "staticcheck/sa9001/sa9001.go", Rule: "R3.6", KeyPart: "sa9001.run$1::CoreType-result-used-unchecked",
+				Old: "\t\t_, ok := typeutil.CoreType(typ).(*types.Chan)\n\t\tif !ok {\n\t\t\treturn\n\t\t}\n", New: "\t\tif _, isMap := typeutil.CoreType(typ).Underlying().(*types.Map); isMap {\n\t\t\treturn\n\t\t}\n\t\t_, ok := typeutil.CoreType(typ).(*types.Chan)\n\t\tif !ok {\n\t\t\treturn\n\t\t}\n"},
+			{Name: "nilness-array-length-from-core-type", File: "analysis/facts/nilness/nilness.go", Rule: "R3.6", KeyPart: "nilness.impl",
+				Old: "\t\t\t\tallNonZero := typeutil.All(v.Type(), func(term *types.Term) bool {\n\t\t\t\t\treturn term.Type().Underlying().(*types.Array).Len() != 0\n\t\t\t\t})\n", New: "\t\t\t\tallNonZero := typeutil.CoreType(v.Type()).(*types.Array).Len() != 0\n"},
 			{Name: "nilness-drops-instruction-case", File: "analysis/facts/nilness/nilness.go", Rule: "R3.1", KeyPart: "nilness.impl#1:go/ir.Instruction::*go/ir.SliceToArray",
 				Old: "\t\t\tcase *ir.SliceToArray:\n\t\t\t\t// Pretty much the same logic as SliceToArrayPointer, minus the\n\t\t\t\t// pointer.\n", New: "\t\t\tcase *ir.SliceToArray2:\n\t\t\t\t// Pretty much the same logic as SliceToArrayPointer, minus the\n\t\t\t\t// pointer.\n",
 				More: []Edit{{File: "go/ir/ssa.go", Old: "type Program struct {", New: "type SliceToArray2 struct{ SliceToArray }\n\ntype Program struct {"}}},
@@ -825,6 +829,89 @@ func runC03(c *Ctx) {
 				}
 			}
 			c.Check(strings.TrimPrefix(fn.String(), Module+"/")+"::Run-returns-no-internal-error", badPos, bad == "", "an analyzer's Run must return a nil error on code that compiles: a non-nil error marks the whole package failed (%s)", bad)
+		}
+	})
+	// R3.6: typeutil.CoreType returns nil for a type parameter whose type set
+	// has no core type — valid Go. In analysis code (everything linked into
+	// staticcheck except the IR builder, whose uses follow the spec's "must
+	// have a core type" operations) every use of its result must be nil-safe.
+	c.Rule("R3.6", func() {
+		c.Floor("R3.6", 8)
+		uncheckedOK := map[string]string{
+			"(*honnef.co/go/tools/unused.graph).read::CoreType-result-used-unchecked#0":          "walks the embedded-field path of a key in a struct literal; Go does not allow promoted fields as literal keys, so the path has one element and the loop body never runs",
+			"honnef.co/go/tools/simple/s1019.run$1::CoreType-result-used-unchecked#0":            "the type argument of make: the spec requires it to have a core type",
+			"honnef.co/go/tools/simple/s1019.run$1::CoreType-result-used-unchecked#1":            "the type argument of make: the spec requires it to have a core type",
+			"(*honnef.co/go/tools/go/ir.CallCommon).Signature::CoreType-result-used-unchecked#0": "the callee of a call: the spec requires the called value to have a core type of function type",
+		}
+		linked := linkedPackages(c)
+		nCalls := 0
+		for _, fn := range c.ModuleFuncs() {
+			pp := FuncPkgPath(fn)
+			if !linked[pp] || strings.Contains(pp, "/internal/xtools-internal") || pp == Module+"/go/types/typeutil" {
+				continue
+			}
+			isBuilder := pp == Module+"/go/ir" && fn.String() != "(*"+Module+"/go/ir.CallCommon).Signature"
+			n, nu := 0, 0
+			for _, ci := range Calls(fn, false) {
+				name := CalleeName(ci.Common())
+				if name != Module+"/go/types/typeutil.CoreType" && name != Module+"/go/types/typeutil.TypeSet.CoreType" {
+					continue
+				}
+				call, ok := ci.(*ssa.Call)
+				if !ok {
+					continue
+				}
+				if isBuilder {
+					continue // go/ir: lowering of operations for which the spec demands a core type; covered by the builder's own tests
+				}
+				nCalls++
+				c.SawFunc(fn.String())
+				// uses of the result
+				unchecked, nilTested := "", false
+				var visit func(v ssa.Value, depth int)
+				visit = func(v ssa.Value, depth int) {
+					refs := v.Referrers()
+					if refs == nil || depth > 3 {
+						return
+					}
+					for _, r := range *refs {
+						switch r := r.(type) {
+						case *ssa.TypeAssert:
+							if !r.CommaOk {
+								unchecked = "asserted to " + r.AssertedType.String() + " without comma-ok"
+							}
+						case *ssa.BinOp:
+							if IsNilConst(r.X) || IsNilConst(r.Y) {
+								nilTested = true
+							}
+						case *ssa.Call:
+							if r.Call.IsInvoke() && r.Call.Value == v {
+								unchecked = "method " + r.Call.Method.Name() + " called on it"
+							}
+						case *ssa.ChangeInterface:
+							visit(r, depth+1)
+						case *ssa.Phi:
+							visit(r, depth+1)
+						}
+					}
+				}
+				visit(call, 0)
+				key := FuncKey(fn) + "::CoreType-result-used-unchecked#" + itoa(nu)
+				if unchecked == "" || nilTested {
+					c.Check(FuncKey(fn)+"::CoreType-result-nil-safe#"+itoa(n), call.Pos(), true, "the result is only used through comma-ok assertions, type switches or after a nil test")
+					n++
+					continue
+				}
+				if why, ok := uncheckedOK[key]; ok {
+					c.CheckTrivial(key, call.Pos(), true, "reviewed: %s", why)
+				} else {
+					c.Check(key, call.Pos(), false, "typeutil.CoreType returns nil for a type parameter without a core type (valid Go), and here its result is %s: staticcheck panics on such a program; use a comma-ok assertion, a type switch, a nil test, or iterate over the type set's terms", unchecked)
+				}
+				nu++
+			}
+		}
+		if nCalls < 8 {
+			c.Undecided("found only %d uses of typeutil.CoreType in analysis code", nCalls)
 		}
 	})
 }
